@@ -24,24 +24,53 @@ is logged with the id of the object written (`St.writes`).  Tied to the code by 
 -/
 namespace Utv.C19
 
+/-- user subclasses of the builtin containers: `class Tags(list)`, `class Window(tuple)`, a namedtuple, … -/
+inductive UBase where
+  | list | tuple | set | fset | dict | deque | ntuple
+  deriving DecidableEq, Repr
+
 inductive Kind where
   | list | tuple | set | fset | dict
   | inst (cls : Nat)        -- instance of data class `cls` (Schema: a dict subclass; DataClass: plain object)
   | opq (tag : Nat)         -- mutable object `copy_value` does not know: 0 bytearray, 1 deque
+  | usr (b : UBase)         -- instance of a user subclass of a builtin container
   deriving DecidableEq, Repr
 
-/-- can the object be changed in place? (tuple / frozenset cannot) -/
-def Kind.mutable : Kind → Bool
+/-- the builtin class an object is an instance of (`isinstance` view) -/
+def Kind.base : Kind → Kind
+  | .usr .list => .list
+  | .usr .tuple => .tuple
+  | .usr .ntuple => .tuple
+  | .usr .set => .set
+  | .usr .fset => .fset
+  | .usr .dict => .dict
+  | .usr .deque => .opq 1
+  | k => k
+
+/-- can the object be changed in place? (tuple / frozenset and their subclasses cannot) -/
+def Kind.mutable (k : Kind) : Bool :=
+  match k.base with
   | .tuple | .fset => false
   | _ => true
 
-/-- `multi(data) or isinstance(data, dict)` — functional.py:7-10, 26-29: the kinds `copy_value` rebuilds.
-(Instances are outside the generated fragment: the driver answers `unmodelled` for them.) -/
-def Kind.copied : Kind → Bool
+/-- `multi(data) or isinstance(data, dict)` — functional.py:7-10, 26-29: the kinds `copy_value` rebuilds.  Both tests
+are `isinstance` tests, so instances of user subclasses of list / set / frozenset / tuple / dict are rebuilt too.
+(Data-class instances are outside the generated fragment: the driver answers `unmodelled` for them; so does it for
+namedtuple defaults, whose constructor refuses the single list argument.) -/
+def Kind.copied (k : Kind) : Bool :=
+  match k.base with
   | .list | .tuple | .set | .fset | .dict => true
   | _ => false
 
-def Kind.isSeq : Kind → Bool
+/-- the class of the rebuilt object: `type(data)(...)` keeps a user subclass of list / set / frozenset / tuple,
+`{k: copy_value(v) ...}` turns a dict subclass into a plain dict (functional.py:27, 29) -/
+def Kind.rebuilt : Kind → Kind
+  | .usr .dict => .dict
+  | k => k
+
+/-- `multi(data)`: list, tuple, set, frozenset and their subclasses -/
+def Kind.isSeq (k : Kind) : Bool :=
+  match k.base with
   | .list | .tuple | .set | .fset => true
   | _ => false
 
@@ -54,12 +83,15 @@ def Kind.isSeqTarget : Kind → Bool
   | .list | .tuple | .set | .fset | .opq 1 => true
   | _ => false
 
-/-- `value[:n]` works (list, tuple, bytearray); set / frozenset / deque / dict raise TypeError -/
-def Kind.sliceable : Kind → Bool
+/-- `value[:n]` works (list, tuple, bytearray and subclasses of the first two — the slice is a plain list / tuple);
+set / frozenset / deque / dict raise TypeError -/
+def Kind.sliceable (k : Kind) : Bool :=
+  match k.base with
   | .list | .tuple | .opq 0 => true
   | _ => false
 
-def Kind.isSet : Kind → Bool
+def Kind.isSet (k : Kind) : Bool :=
+  match k.base with
   | .set | .fset => true
   | _ => false
 
@@ -98,7 +130,7 @@ def Val.veq : Val → Val → Bool
   | .none, .none => true
   | .int a, .int b => a == b
   | .str a, .str b => a == b
-  | .node _ k ks xs, .node _ k' ks' ys => k == k' && ks == ks' && veqL xs ys
+  | .node _ k ks xs, .node _ k' ks' ys => k.base == k'.base && ks == ks' && veqL xs ys      -- `==` ignores the subclass
   | _, _ => false
 def veqL : List Val → List Val → Bool
   | [], [] => true
@@ -149,7 +181,7 @@ def copyValue : Val → St → Val × St
       if k.copied then
         -- `type(data)([copy_value(d) for d in data])` / `{k: copy_value(v) for k, v in data.items()}`
         match copyList items s with
-        | (items', s1) => (.node s1.next k keys items', { s1 with next := s1.next + 1 })
+        | (items', s1) => (.node s1.next k.rebuilt keys items', { s1 with next := s1.next + 1 })
       else (.node i k keys items, s)            -- `return data`
   | v, s => (v, s)                              -- `return data`
 def copyList : List Val → St → List Val × St
@@ -319,17 +351,17 @@ def convBare (o : Opts) (k : Kind) (v : Val) : Comp := fun s =>
   if k.isSeqTarget then
     match v with
     | .node _ k' _ items =>
-        if k' == k then (.ok v, s)                                   -- exact type / `isinstance(data, t)`: the argument itself
+        if k'.base == k then (.ok v, s)                              -- exact type / `isinstance(data, t)`: the argument itself
         else if k'.isSeq then
           -- `multi(data)` → `t(data)`   (before the strict check)
           if k'.isSet && !k.isSet && items.length > 1 then (.error (.unmodelled "sequence from a set (iteration order)"), s)
           else mkSeq k items false s
-        else if k' == .dict then
+        else if k'.base == .dict then
           if o.strict then (.error .perr, s)
           else if k.isSet then (.error (.unmodelled "set from dict"), s)
           else if items.isEmpty then mk k [] [] false s              -- `{}` → `t()`
           else mk k [] [v] false s                                   -- `t([data])`
-        else if k' == Kind.deque then
+        else if k'.base == Kind.deque then
           -- a deque is not `multi()`: it is wrapped like a scalar, `t([data])`
           if o.strict then (.error .perr, s)
           else if k.isSet then (.error .perr, s)                     -- unhashable
@@ -339,7 +371,7 @@ def convBare (o : Opts) (k : Kind) (v : Val) : Comp := fun s =>
   else if k == .dict then
     match v with
     | .node _ k' _ items =>
-        if k' == .dict then (.ok v, s)                               -- `isinstance(data, t)`: the argument itself
+        if k'.base == .dict then (.ok v, s)                          -- `isinstance(data, t)`: the argument itself
         else if k'.isSeq then
           if o.strict then (.error .perr, s)
           else if items.isEmpty then mk .dict [] [] false s          -- `dict([])`
@@ -357,7 +389,7 @@ def convBare (o : Opts) (k : Kind) (v : Val) : Comp := fun s =>
 /-- `value[:n]` — `lax_length` / `lax_max_length` (rule.py:1046-1078): a *new* object for list / tuple / bytearray,
 TypeError (→ ParseError) for what cannot be sliced -/
 def laxCut (n : Nat) : Val → Comp
-  | .node _ k _ xs, s => if k.sliceable then mk k [] (xs.take n) false s else (.error .perr, s)
+  | .node _ k _ xs, s => if k.sliceable then mk k.base [] (xs.take n) false s else (.error .perr, s)
   | _, s => (.error (.unmodelled "length of an atom"), s)
 
 def lenOf : Val → Nat
@@ -677,11 +709,12 @@ def delKV (k : String) : List String → List Val → List String × List Val
       else match delKV k as xs with | (ks, vs) => (a :: ks, x :: vs)
   | _, _ => ([], [])
 
-def Act.apply : Act → Kind → List String → List Val → Option (List String × List Val)
-  | .append v, .list, ks, xs => some (ks, xs ++ [v])
-  | .add v, .set, ks, xs => some (ks, if xs.any (fun w => v.veq w) then xs else xs ++ [v])
-  | .setkey k v, .dict, ks, xs => some (setKV k v ks xs)
-  | _, _, _, _ => Option.none
+def Act.apply (a : Act) (k : Kind) (ks : List String) (xs : List Val) : Option (List String × List Val) :=
+  match a, k.base with          -- a list / set / dict or an instance of a user subclass of one
+  | .append v, .list => some (ks, xs ++ [v])
+  | .add v, .set => some (ks, if xs.any (fun w => v.veq w) then xs else xs ++ [v])
+  | .setkey k v, .dict => some (setKV k v ks xs)
+  | _, _ => Option.none
 
 mutual
 /-- apply an in-place write to object `i`, wherever it occurs in a value -/
